@@ -28,7 +28,7 @@ pub struct Opts {
 
 /// Lenient structural decoder used for the client-side "is this authentic" question:
 /// structure (count, offsets) enforced, tag order / unknown tags not.
-fn lenient(b: &[u8]) -> Result<RefMsg, String> {
+pub fn lenient(b: &[u8]) -> Result<RefMsg, String> {
     if b.len() < 4 || b.len() % 4 != 0 {
         return Err("message shorter than 4 bytes or unaligned".into());
     }
